@@ -19,6 +19,7 @@ package db
 //@ ghost lk_shared bool
 //@ ghost lk_pending bool
 //@ ghost peer_state bv64
+//@ ghost peer_stable bool
 //@ ghost other_shared bool
 
 // Tokens: page_of(buf, n, cc): buf holds page n of the file as of change counter cc (from the pager);
@@ -48,23 +49,25 @@ package db
 //@ iface db.pager.CheckReservedLock
 //@   props C07 C09
 //@   opt params=self
-//@   pure
+//@   modifies peer_state alloc
 //@   trusted-ensures [probe] err == nil ==> (r0 <==> peer_state >= 2)
+//@   trusted-ensures [stable] peer_stable ==> peer_state == old(peer_state)
 
 // RLock: SHARED is held afterwards iff it succeeded; it fails while another connection is in PENDING
 // or EXCLUSIVE. A new read transaction may see a new change counter.
 //@ iface db.pager.RLock
 //@   props C06 C07 C08
 //@   opt params=self
-//@   modifies lk_shared lk_pending cc_now db.filePager.readLock alloc
+//@   modifies lk_shared lk_pending peer_state cc_now db.filePager.readLock alloc
 //@   trusted-ensures err == nil ==> lk_shared && !lk_pending
 //@   trusted-ensures err != nil ==> lk_shared == old(lk_shared) && !lk_pending
-//@   trusted-ensures peer_state >= 3 ==> err != nil
+//@   trusted-ensures peer_stable && old(peer_state) >= 3 ==> err != nil
+//@   trusted-ensures peer_stable ==> peer_state == old(peer_state)
 
 //@ iface db.pager.RUnlock
 //@   props C06
 //@   opt params=self
-//@   modifies lk_shared db.filePager.readLock
+//@   modifies lk_shared peer_state db.filePager.readLock
 //@   trusted-ensures !lk_shared
 
 //@ iface db.pager.Close
@@ -111,15 +114,15 @@ package db
 // RLock marks the handle dirty: the next access re-reads and re-validates the header.
 //@ func (*db.Database).RLock
 //@   props C06 C08 C15
-//@   modifies db.Database.dirty lk_shared lk_pending cc_now hdr_valid db.filePager.readLock alloc
+//@   modifies db.Database.dirty lk_shared lk_pending peer_state cc_now hdr_valid db.filePager.readLock alloc
 //@   requires db != nil
 //@   ghost-exit hdr_valid = false
 //@   ensures [dirty] db.dirty
-//@   ensures [lock] (err == nil ==> lk_shared && !lk_pending) && (err != nil ==> lk_shared == old(lk_shared) && !lk_pending) && (peer_state >= 3 ==> err != nil)
+//@   ensures [lock] (err == nil ==> lk_shared && !lk_pending) && (err != nil ==> lk_shared == old(lk_shared) && !lk_pending) && (peer_stable && old(peer_state) >= 3 ==> err != nil)
 
 //@ func (*db.Database).RUnlock
 //@   props C06
-//@   modifies lk_shared db.filePager.readLock
+//@   modifies lk_shared peer_state db.filePager.readLock
 //@   requires db != nil
 //@   ensures [unlock] !lk_shared
 
@@ -133,7 +136,7 @@ package db
 //@ func (*db.Database).resolveDirty
 //@   props C08 C15 C09
 //@   opt no-type-invariant=db.Database
-//@   modifies * -M:S_db_KeyCol hdr_valid hdr_ps hdr_cookie jr_pos
+//@   modifies * -M:S_db_KeyCol hdr_valid hdr_ps hdr_cookie jr_pos peer_state
 //@   requires db != nil && db.l != nil && db.btreeCache != nil && db.btreeCache.elem != nil
 //@   requires db.header != nil ==> CACHE_OK(db) && legal_ps(db.header.PageSize)
 //@   requires db.header == nil ==> db.dirty && (forall q int :: !has(db.btreeCache.elem, q))
@@ -141,7 +144,7 @@ package db
 //@   ensures [clean] err == nil ==> !db.dirty && db.header != nil && db.header.ChangeCounter == cc_now
 //@   ensures [validated] err == nil ==> hdr_valid
 //@   ensures [handles] db.l == old(db.l)
-//@   ensures [hot] JR_ENV() && old(db.dirty) && old(db.journal) != "" && jr_exists && jrnl_hot(jr_bytes, jr_len) && peer_state < 2 ==> err != nil
+//@   ensures [hot] JR_ENV() && old(db.dirty) && old(db.journal) != "" && jr_exists && jrnl_hot(jr_bytes, jr_len) && peer_stable && old(peer_state) < 2 ==> err != nil
 //@   ensures [current] err == nil && old(db.dirty) ==> db.header.ChangeCounter == cc_now && legal_ps(db.header.PageSize)
 //@   ensures [untouched] err == nil && !old(db.dirty) ==> db.header == old(db.header)
 //@   ensures [cache] err == nil ==> db.btreeCache != nil && db.btreeCache.elem != nil && CACHE_OK(db)
@@ -150,7 +153,7 @@ package db
 
 //@ func (*db.Database).openPage
 //@   props C08 C15 C01 C02 C12
-//@   modifies * -M:S_db_KeyCol hdr_valid hdr_ps hdr_cookie
+//@   modifies * -M:S_db_KeyCol hdr_valid hdr_ps hdr_cookie jr_pos peer_state
 //@   requires db != nil
 //@   ensures [clean] err == nil ==> !db.dirty && db.header != nil && db.header.ChangeCounter == cc_now
 //@   ensures [current] err == nil ==> r0 != nil && repr(r0, page, db.header.ChangeCounter)
@@ -171,7 +174,7 @@ package db
 //@ func (*db.Database).master
 //@   props C08 C12 C05 C01
 //@   uses table_tree
-//@   modifies * -M:S_db_KeyCol hdr_valid hdr_ps hdr_cookie
+//@   modifies * -M:S_db_KeyCol hdr_valid hdr_ps hdr_cookie jr_pos peer_state
 //@   requires db != nil
 //@   ghost-entry cur_tree = tree_of(1)
 //@   ghost-entry pos = p_lo(1)
@@ -192,29 +195,29 @@ package db
 
 //@ func (*db.Database).Table
 //@   props C08 C05 C01
-//@   modifies * -M:S_db_KeyCol hdr_valid hdr_ps hdr_cookie
+//@   modifies * -M:S_db_KeyCol hdr_valid hdr_ps hdr_cookie jr_pos peer_state
 //@   requires db != nil
 //@   ensures err == nil ==> r0 != nil && r0.db == db && hdr_valid
 
 //@ func (*db.Database).NonRowidTable
 //@   props C08 C05 C01
-//@   modifies * -M:S_db_KeyCol hdr_valid hdr_ps hdr_cookie
+//@   modifies * -M:S_db_KeyCol hdr_valid hdr_ps hdr_cookie jr_pos peer_state
 //@   requires db != nil
 //@   ensures err == nil ==> r0 != nil && r0.db == db && hdr_valid
 
 //@ func (*db.Database).Index
 //@   props C08 C05 C02
-//@   modifies * -M:S_db_KeyCol hdr_valid hdr_ps hdr_cookie
+//@   modifies * -M:S_db_KeyCol hdr_valid hdr_ps hdr_cookie jr_pos peer_state
 //@   requires db != nil
 //@   ensures err == nil ==> r0 != nil && r0.db == db && hdr_valid
 
 //@ func (*db.Database).objectNames
 //@   props C08 C05
-//@   modifies * -M:S_db_KeyCol hdr_valid hdr_ps hdr_cookie
+//@   modifies * -M:S_db_KeyCol hdr_valid hdr_ps hdr_cookie jr_pos peer_state
 //@   requires db != nil
 
 //@ func db.newDatabase
 //@   props C08 C15 C05
-//@   modifies * -M:S_db_KeyCol hdr_valid hdr_ps hdr_cookie
+//@   modifies * -M:S_db_KeyCol hdr_valid hdr_ps hdr_cookie jr_pos peer_state
 //@   requires l != nil
 //@   ensures [open] r1 == nil ==> r0 != nil && !r0.dirty && r0.header != nil && legal_ps(r0.header.PageSize) && r0.header.ChangeCounter == cc_now && hdr_valid
